@@ -1,11 +1,102 @@
-(* C01 — Every solver solution is grammar-valid and satisfies the constraint. *)
-From ISLA Require Import Sound.
+(* C01 — Every solver solution is grammar-valid and satisfies the constraint.
+   Only statements + `exact`; proofs: Solver/Sound.v, RulesFacts.v, SolveSound.v.
+   Models: Solver/State.v (acceptance check), Solver/Rules.v (abstract rule system).
 
-(* The runtime acceptance check applied by ./check C01 to EVERY tree returned by
-   ISLaSolver.solve() is sound: a tree that passes is a closed derivation tree of the grammar
-   rooted at the start symbol, its string is in the language, and it satisfies the original
-   constraint under the specification semantics. *)
+   FULL STATEMENT (not proved about the Python code; see strength below):
+     every tree returned by ISLaSolver.solve() is closed, a derivation tree of the grammar rooted at
+     the start symbol, its string is in the language, and it satisfies the solver's constraint under
+     the specification semantics — for every prefix of the sequence of solve() calls.
+   STRENGTH: PARTIAL.  (a) C01_solve_sound_partial is about an ABSTRACT transition system that
+   over-approximates the elimination chain of solve(); SMT elimination, semantic predicates, tree
+   insertion, universal numeric quantifiers, removal of universals over open in-trees and early
+   instantiation of consecutive/level are PREMISES (sound_rel hypotheses).  (b) The full statement is
+   REFUTED for constraints with nth (C01_eval_unsound_nth: the evaluation step the code performs
+   without a stability side condition adds a non-solution; reproduced on the implementation, known
+   finding K_nth) and, on the implementation, for count (K_count, inside the premise H_sem).
+   (c) The tie to /repo is the runtime check of every returned tree by sol_check
+   (C01_checked_solution_valid / _complete). *)
+From ISLA Require Import SolveSound.
+
+(* ---- runtime acceptance check ---- *)
 Theorem C01_checked_solution_valid : forall g start cst f t,
   sol_check g start cst f t = 0%N -> valid_solution g start cst f t.
 Proof. exact sol_check_sound. Qed.
 Print Assumptions C01_checked_solution_valid.
+
+Theorem C01_checked_solution_complete : forall g start cst f t,
+  shape_ok t = true -> no_numq f = true ->
+  valid_solution g start cst f t -> sol_check g start cst f t = 0%N.
+Proof. exact sol_check_complete. Qed.
+Print Assumptions C01_checked_solution_complete.
+
+Theorem C01_checked_prefixes_valid : forall g start cst f (out : list tree),
+  forallb (sol_ok g start cst f) out = true ->
+  forall n, Forall (valid_solution g start cst f) (firstn n out).
+Proof. exact sol_check_prefix. Qed.
+Print Assumptions C01_checked_prefixes_valid.
+
+Theorem C01_atom_decider_correct : forall a e, satom_dec a e = true <-> satom_denote a e.
+Proof. exact satom_dec_spec. Qed.
+Print Assumptions C01_atom_decider_correct.
+
+(* ---- local soundness of the rules (Sol s' is a subset of Sol s) ---- *)
+(* invariant split (and / or / nnf), universal matching, removal of universals over complete
+   in-trees, existential matching (with and without match expressions), ExistsInt introduction,
+   expansion / finishing *)
+Theorem C01_local_sound_core : forall g s s', core_step g s s' -> forall t', Sol g s' t' -> Sol g s t'.
+Proof. exact core_sound. Qed.
+Print Assumptions C01_local_sound_core.
+
+(* evaluation of a predicate / SMT conjunct on the current tree is sound when the verdict is stable *)
+Theorem C01_local_sound_eval_partial : forall g s s',
+  eval_step_stable s s' -> forall t', Sol g s' t' -> Sol g s t'.
+Proof. exact eval_stable_sound. Qed.
+Print Assumptions C01_local_sound_eval_partial.
+
+(* ... which holds for the six position-only structural predicates ... *)
+Theorem C01_stable_path_only : forall t b n args,
+  path_only n = true -> forallb no_tree_arg args = true ->
+  stable t b (FSPred n args) /\ stable t b (FNot (FSPred n args)).
+Proof. exact stable_path_only. Qed.
+Print Assumptions C01_stable_path_only.
+
+(* ... and for SMT atoms over closed subtrees *)
+Theorem C01_stable_smt_closed : forall t b a,
+  vars_closed t b (satom_vars a) -> stable t b (FSmt a) /\ stable t b (FNot (FSmt a)).
+Proof. exact stable_smt_closed. Qed.
+Print Assumptions C01_stable_smt_closed.
+
+(* ... but NOT for nth: the step as the code performs it (no side condition) adds a non-solution *)
+Theorem C01_eval_unsound_nth_refuted : exists g s s' t',
+  eval_step s s' /\ Sol g s' t' /\ ~ Sol g s t' /\
+  K_nth (snd (hd (env_empty, FSmt (SBool true)) (fst s))) = true.
+Proof. exact eval_unsound_nth. Qed.
+Print Assumptions C01_eval_unsound_nth_refuted.
+
+(* match-expression matching never looks below an open leaf *)
+Theorem C01_match_stable : forall t2 s s' P q bs, compl s s' ->
+  smatch t2 s P q = Some bs -> smatch t2 s' P q = Some bs.
+Proof. exact smatch_compl. Qed.
+Print Assumptions C01_match_stable.
+
+(* ---- the abstract solver ---- *)
+Theorem C01_solve_sound_partial :
+  forall (g : grammar)
+         (smt_step sem_step insert_step numq_step infeasible_step predinst_step : cstate -> cstate -> Prop),
+    sound_rel g smt_step -> sound_rel g sem_step -> sound_rel g insert_step ->
+    sound_rel g numq_step -> sound_rel g infeasible_step -> sound_rel g predinst_step ->
+    forall start i0 cst phi s,
+      is_nt start = true -> defined g start = true ->
+      reachable g smt_step sem_step insert_step numq_step infeasible_step predinst_step
+                (init_state start i0 cst phi) s ->
+      final s -> valid_solution g start cst phi (snd s).
+Proof. exact solve_sound_partial. Qed.
+Print Assumptions C01_solve_sound_partial.
+
+Example C01_solve_sound_nonvacuous :
+  let R := RunExample.none in
+  reachable RunExample.g R R R R R R (init_state RunExample.nt_s 0 RunExample.cst RunExample.phi)
+            ([], RunExample.t1) /\
+  final ([], RunExample.t1) /\ sound_rel RunExample.g R.
+Proof. exact solve_sound_example. Qed.
+Print Assumptions C01_solve_sound_nonvacuous.
